@@ -38,6 +38,8 @@ func (u *Unit) frameItems(fr *frame) ([]frameItem, bool) {
 				tf := item[5 : len(item)-1]
 				i := strings.LastIndex(tf, ".")
 				items = append(items, frameItem{prefix: "F:" + tf[:i] + ":" + tf[i+1:]})
+			case strings.HasPrefix(item, "allmem("):
+				items = append(items, frameItem{prefix: "M:" + item[7:len(item)-1]})
 			case strings.HasPrefix(item, "maps("):
 				items = append(items, frameItem{prefix: "MD:" + mapsKey(item)}, frameItem{prefix: "MV:" + mapsKey(item)})
 			case strings.HasPrefix(item, "mem("):
